@@ -698,6 +698,16 @@ class Elab:
             if isinstance(v, ObjV):
                 return ClassRef(v.cinfo)
             return type(v)
+        if name == 'vars':
+            o = args[0]
+            if isinstance(o, ObjV):
+                return o.attrs
+            if isinstance(o, ClassRef):
+                d = {k: FuncRef(f, o.cinfo, None) for k, f in o.cinfo.methods.items()}      # the class's own namespace (nothing inherited)
+                ok, ca, _ = self.class_attr(o.cinfo, '__hv_none__')
+                d.update(self.class_attrs.get((o.cinfo.rel, o.cinfo.name), {}))
+                return d
+            raise ElabError('vars() of %s' % type(o).__name__)
         if name == 'hasattr':
             try:
                 self.getattr_(args[0], args[1])
@@ -882,6 +892,8 @@ class Elab:
         elif isinstance(s, ast.Return):
             raise _Return(self.eval(s.value, frame) if s.value is not None else None)
         elif isinstance(s, ast.Raise):
+            if s.exc is None and frame.get('__exc__') is not None:
+                raise frame['__exc__']          # bare `raise` inside a handler
             msg = ''
             try:
                 v = self.eval(s.exc, frame) if s.exc is not None else None
@@ -891,7 +903,9 @@ class Elab:
             raise ElabRaise(msg)
         elif isinstance(s, ast.Assert):
             if not self.truth(self.eval(s.test, frame)):
-                raise ElabRaise('assertion failed: ' + norm(s.test)[:80])
+                er = ElabRaise('assertion failed: ' + norm(s.test)[:80])
+                er.kind = 'AssertionError'
+                raise er
         elif isinstance(s, (ast.Import, ast.ImportFrom)):
             if isinstance(s, ast.Import):
                 for a in s.names:
@@ -917,19 +931,29 @@ class Elab:
             raise _Continue()
         elif isinstance(s, ast.Try):
             try:
-                self.exec_block(s.body, frame)
-            except PyExc as e:
-                for h in s.handlers:
-                    if h.type is None or norm(h.type) in ('Exception', e.kind, 'BaseException') or e.kind in norm(h.type):
-                        self.exec_block(h.body, frame)
-                        break
+                try:
+                    self.exec_block(s.body, frame)
+                except (PyExc, ElabRaise) as e:
+                    kind = e.kind if isinstance(e, PyExc) else getattr(e, 'kind', 'Exception')
+                    for h in s.handlers:
+                        tn = norm(h.type) if h.type is not None else None
+                        if tn is None or tn in ('Exception', kind, 'BaseException') or kind in tn:
+                            if h.name:
+                                frame[h.name] = ('exception', str(e))
+                            outer = frame.get('__exc__')
+                            frame['__exc__'] = e
+                            try:
+                                self.exec_block(h.body, frame)
+                            finally:
+                                frame['__exc__'] = outer
+                            break
+                    else:
+                        raise
                 else:
-                    raise
-            else:
-                self.exec_block(s.orelse, frame)
+                    self.exec_block(s.orelse, frame)
             finally:
-                pass
-            self.exec_block(s.finalbody, frame)
+                if s.finalbody:
+                    self.exec_block(s.finalbody, frame)
         elif isinstance(s, ast.Delete):
             for t in s.targets:
                 if isinstance(t, ast.Subscript):
@@ -1097,7 +1121,7 @@ class Elab:
             if e.id == 'object':
                 return object
             if e.id in ('len', 'range', 'enumerate', 'zip', 'reversed', 'sorted', 'int', 'float', 'str', 'bool', 'list', 'tuple', 'abs', 'min', 'max', 'sum', 'round',
-                        'pow', 'divmod', 'hex', 'bin', 'ord', 'chr', 'dict', 'print', 'isinstance', 'type', 'hasattr', 'getattr', 'setattr', 'callable', 'id',
+                        'pow', 'divmod', 'hex', 'bin', 'ord', 'chr', 'dict', 'print', 'isinstance', 'type', 'hasattr', 'getattr', 'setattr', 'callable', 'id', 'vars',
                         'super', 'Exception', 'any', 'all', 'set', 'frozenset', 'repr', 'iter', 'next', 'format', 'map', 'filter', 'delattr', 'TranspilationException', 'eval'):
                 return ('builtin', e.id)
             raise PyExc('NameError', "name '%s' is not defined" % e.id)
